@@ -85,7 +85,7 @@ theorem nodeLink_I_node (w : World) (g : Nat) (a : Option Nat) (n : Nat) (h : I_
       split
       · subst_vars; exact nodup_linkAfter _ _ _ (h.nodup _)
       · exact h.nodup g'
-  · exact h
+  · exact I_node_bump h
 
 theorem nodeUnlink_I_node (w : World) (g n : Nat) (h : I_node w) : I_node (nodeUnlink w g n) := by
   unfold nodeUnlink
@@ -106,7 +106,7 @@ theorem nodeUnlink_I_node (w : World) (g n : Nat) (h : I_node w) : I_node (nodeU
       split
       · subst_vars; exact (h.nodup _).erase n
       · exact h.nodup g'
-  · exact h
+  · exact I_node_bump h
 
 /-! ### frames of `nodeLink` / `nodeUnlink` -/
 
